@@ -1,9 +1,15 @@
 import Dnp3.Model.OutstationTrace
+import Dnp3.Proofs.OutstationC05
 /-!
 # C05 — A retransmitted request is answered from memory and never executed twice
+
+Restated verbatim from `Dnp3.Proofs.OutstationC05` (`IsRepeat`, `isExec`, `rxAccept` live there).
+Known findings kept as exact characterisations: D14 (the idle-path echo re-ORs the current IIN),
+D5 (echo of a READ repeated during the confirm wait of a later fragment splices two fragments:
+only the single-fragment `_partial` is proved).
 -/
 namespace Dnp3.Props.C05
-open Dnp3
+open Dnp3 Dnp3.Proofs.C05 Dnp3.Proofs.C04
 
 /-- a unicast fragment with the sequence number and the exact octets of the last processed request
     is classified as a repeat (for every function code but CONFIRM) and carries the stored response -/
@@ -14,5 +20,123 @@ theorem repeat_is_classified (s : OState) (f : Frag) (ctrl : AppCtrl) (func : Na
     (func ≠ 1 → ∃ r, classify s f ctrl func (.ok hs) = .repeatNonRead r ∧ r = last.response) := by
   unfold classify
   simp [hf, hb, hl, hseq, hfrag]
+
+/-- **C05.1 (step level)**: in EVERY state with no deferred read (idle, confirm waits, …), receiving
+    again the last recorded non-READ request (same sequence number, identical bytes, unicast, objects
+    well-formed) fires no control / write / freeze / time / restart callback. -/
+theorem repeat_nonread_not_executed (env : OEnv) (s : OState) (src dst : Nat) (data : List Nat) (f : Frag)
+    {ctrl : AppCtrl} {func : Nat} {objects : Except Nat (List ObjHdr)} {raw : List Nat} {last : LastReq}
+    (hacc : rxAccept env s src dst data = some f)
+    (hq : parseRequest data = .request ctrl func objects raw)
+    (hd : s.deferred = none)
+    (hr : IsRepeat s f ctrl func objects last) :
+    ∀ o ∈ (Outstation.step env s (.rx src dst data)).2, isExec o = false :=
+  @Dnp3.Proofs.C05.repeat_nonread_not_executed env s src dst data f ctrl func objects raw last hacc hq hd hr
+
+/-- **C05.1 (unsolicited confirm wait)**: no executing callback -/
+theorem repeat_nonread_not_executed_unsolwait {a : Acc} {f : Frag} {ctrl : AppCtrl} {func : Nat}
+    {objects : Except Nat (List ObjHdr)} {raw : List Nat} {last : LastReq} (resp : Resp) (isNull : Bool)
+    (hp : a.1.pending = some f) (hq : parseRequest f.data = .request ctrl func objects raw)
+    (hm : a.1.cfg.anymaster = true ∨ f.src = a.1.cfg.master)
+    (hr : IsRepeat a.1 f ctrl func objects last) :
+    ∃ l, (accOf (unsolWaitOnFragment a resp isNull)).2 = a.2 ++ l ∧ ∀ o ∈ l, isExec o = false :=
+  @Dnp3.Proofs.C05.repeat_nonread_not_executed_unsolwait a f ctrl func objects raw last resp isNull hp hq hm hr
+
+/-- **C05.1 / C05.2 (unsolicited confirm wait)**: a retransmitted non-READ request arriving during the
+    unsolicited confirm wait is not executed; the model blocks again having transmitted exactly
+    `repeatSolicited` of the stored response (nothing if no response was stored), i.e. the stored header
+    written over the current solicited buffer, cut to the stored size. -/
+theorem repeat_nonread_unsolwait {a : Acc} {f : Frag} {ctrl : AppCtrl} {func : Nat}
+    {objects : Except Nat (List ObjHdr)} {raw : List Nat} {last : LastReq} (resp : Resp) (isNull : Bool)
+    (hp : a.1.pending = some f) (hq : parseRequest f.data = .request ctrl func objects raw)
+    (hm : a.1.cfg.anymaster = true ∨ f.src = a.1.cfg.master)
+    (hr : IsRepeat a.1 f ctrl func objects last) :
+    unsolWaitOnFragment a resp isNull = .blocked
+      (match last.response with
+       | some r =>
+         ({ (popped a).1 with deferred := none, solBuf := writeAt a.1.solBuf 0 (respHeader r) },
+           a.2 ++ [.tx f.src ((writeAt a.1.solBuf 0 (respHeader r)).take (max 4 r.size))])
+       | none => ({ (popped a).1 with deferred := none }, a.2)) :=
+  @Dnp3.Proofs.C05.repeat_nonread_unsolwait a f ctrl func objects raw last resp isNull hp hq hm hr
+
+/-- **C05.2 (`repeat_nonread_same_bytes_unsolwait`)**: PROVIDED the solicited buffer still is what the
+    original transmission left (`solBuf = writeAt b0 0 (respHeader r)`, `b0` the buffer the response `r`
+    was originally sent from by `repeatSolicited`/`writeSolicited`), the octets re-sent during the
+    unsolicited confirm wait are byte-for-byte the octets sent originally. -/
+theorem repeat_nonread_same_bytes_unsolwait {a : Acc} {f : Frag} {ctrl : AppCtrl} {func : Nat}
+    {objects : Except Nat (List ObjHdr)} {raw : List Nat} {last : LastReq} (resp : Resp) (isNull : Bool) (r : Resp)
+    (b0 : List Nat) (a00 : Acc) (dst0 : Nat)
+    (hp : a.1.pending = some f) (hq : parseRequest f.data = .request ctrl func objects raw)
+    (hm : a.1.cfg.anymaster = true ∨ f.src = a.1.cfg.master)
+    (hr : IsRepeat a.1 f ctrl func objects last) (hresp : last.response = some r)
+    (horig : a00.1.solBuf = b0)                                
+    (hbuf : a.1.solBuf = (repeatSolicited a00 dst0 r).1.solBuf) : ∃ bytes, (repeatSolicited a00 dst0 r).2 = a00.2 ++ [.tx dst0 bytes] ∧
+        (accOf (unsolWaitOnFragment a resp isNull)).2 = a.2 ++ [.tx f.src bytes] :=
+  @Dnp3.Proofs.C05.repeat_nonread_same_bytes_unsolwait a f ctrl func objects raw last resp isNull r b0 a00 dst0 hp hq hm hr hresp horig hbuf
+
+/-- **C05.2 (`repeat_nonread_idle_reors_iin`, finding D14)**: in the idle path the reply to a retransmitted
+    non-READ request is NOT the stored response verbatim: `writeSolicited` ORs the CURRENT IIN (and possibly
+    the CON bit after a confirm-required broadcast) into the stored header before re-sending it.
+    Exact relation: new iin1 = stored iin1 ||| current iin1, new iin2 = stored iin2 ||| current iin2. -/
+theorem repeat_nonread_idle_reors_iin {a : Acc} {f : Frag} {ctrl : AppCtrl} {func : Nat}
+    {objects : Except Nat (List ObjHdr)} {raw : List Nat} {last : LastReq} {r : Resp}
+    {s' : OState} {i1 i2 : Nat}
+    (hr : IsRepeat a.1 f ctrl func objects last) (hresp : last.response = some r)
+    (hg : getResponseIin (rebased a.1 f) = some (s', i1, i2)) :
+    let r1 : Resp := { r with iin1 := r.iin1 ||| i1, iin2 := r.iin2 ||| i2 }
+    let r2 : Resp := if s'.lastBroadcast = some 1 then { r1 with ctrl := { r1.ctrl with con := true } } else r1
+    ∃ a' sr, handleRequestFromIdle a f ctrl func objects raw = some (a', sr) ∧
+      a'.2 = a.2 ++ [.tx f.src ((writeAt a.1.solBuf 0 (respHeader r2)).take (max 4 r2.size))] ∧
+      a'.1.lastReq = some ⟨ctrl.seq, f.data, some r2, sr⟩ :=
+  @Dnp3.Proofs.C05.repeat_nonread_idle_reors_iin a f ctrl func objects raw last r s' i1 i2 hr hresp hg
+
+theorem repeat_nonread_idle_reors_iin_counterexample :
+    (Outstation.run {} (Outstation.start {} 10).1 d14Inputs).2.map txFrags =
+      [[(1, [192, 129, 128, 0, 52, 2, 7, 1, 0, 0])], [], [(1, [192, 129, 129, 0, 52, 2, 7, 1, 0, 0])]] ∧
+    (Outstation.run {} (Outstation.start {} 10).1 d14Inputs).2.map (fun l => (l.filter isExec).length) = [0, 0, 0] :=
+  @Dnp3.Proofs.C05.repeat_nonread_idle_reors_iin_counterexample 
+
+/-- **C05.3 (`unsol_retry_identical`)**: a retry after the unsolicited confirm timeout transmits the stored
+    header over the current unsolicited buffer; PROVIDED `unsolBuf` still is what the original
+    transmission (`repeatUnsolicited a00 resp`) left, the retry is byte-for-byte the original fragment. -/
+theorem unsol_retry_identical (a : Acc) (resp : Resp) (isNull : Bool) (n : Option Nat) (a00 : Acc)
+    (hretry : n ≠ some 0) (hd : a.1.deferred = none)
+    (hbuf : a.1.unsolBuf = (repeatUnsolicited a00 resp).1.unsolBuf) :
+    ∃ bytes a', (repeatUnsolicited a00 resp).2 = a00.2 ++ [.tx a00.1.cfg.master bytes] ∧
+      unsolWaitTimeout a resp isNull n = .blocked a' ∧
+      a'.2 = a.2 ++ [.cb (.unsolTimeout resp.ctrl.seq true), .tx a.1.cfg.master bytes] ∧
+      a'.1.unsolBuf = a.1.unsolBuf :=
+  @Dnp3.Proofs.C05.unsol_retry_identical a resp isNull n a00 hretry hd hbuf
+
+/-- **C05.3 (invariant)**: a fragment handled during the unsolicited confirm wait never touches `unsolBuf`:
+    either the series ends (`finishUnsol`, entered with `unsolBuf` unchanged) or the task blocks again (or
+    dies) with `unsolBuf` — and, unless it died, the wait mode — unchanged. -/
+theorem unsolWaitOnFragment_keeps_unsolBuf (a : Acc) (resp : Resp) (isNull : Bool) :
+    (∃ a1 c, unsolWaitOnFragment a resp isNull = finishUnsol a1 isNull c ∧ a1.1.unsolBuf = a.1.unsolBuf) ∨
+    KeepsUnsol a (accOf (unsolWaitOnFragment a resp isNull)) :=
+  @Dnp3.Proofs.C05.unsolWaitOnFragment_keeps_unsolBuf a resp isNull
+
+/-- **C05.4 (`resend_is_earlier_fragment_partial`)**: a READ repeated during the solicited confirm wait
+    (same sequence number and bytes as the last recorded request) is answered by `repeatSolicited` of the
+    STORED response header over the CURRENT solicited buffer.  PROVIDED the buffer still is what the
+    transmission of that stored response left (true for single-fragment responses, where the stored response
+    is the fragment awaiting confirmation), the echo is byte-for-byte that fragment.
+
+    NOT proved here: `echo_splice_counterexample` (defect D5).  For a multi-fragment response `lastReq.response`
+    keeps the FIRST fragment's header/size while `solBuf` already holds a later fragment, so the hypothesis
+    `hbuf` fails and the echo is a mixture; exhibiting that needs a `Db.writeResponse` returning a
+    non-complete result, which the current `Db` stub never does. -/
+theorem resend_is_earlier_fragment_partial {a : Acc} {f : Frag} {ctrl : AppCtrl}
+    {objects : Except Nat (List ObjHdr)} {raw : List Nat} {last : LastReq} {hs : List ObjHdr} {r : Resp}
+    (series : Series) (deadline : Nat) (cont : SolCont) (a00 : Acc) (dst0 : Nat)
+    (hp : a.1.pending = some f) (hq : parseRequest f.data = .request ctrl 1 objects raw)
+    (hm : a.1.cfg.anymaster = true ∨ f.src = a.1.cfg.master)
+    (hl : a.1.lastReq = some last) (hseq : last.seq = ctrl.seq) (hfrag : last.frag = f.data)
+    (hu : f.broadcast = none) (hobj : objects = .ok hs) (hresp : last.response = some r)
+    (hbuf : a.1.solBuf = (repeatSolicited a00 dst0 r).1.solBuf) :
+    ∃ bytes a', (repeatSolicited a00 dst0 r).2 = a00.2 ++ [.tx dst0 bytes] ∧
+      solWaitOnFragment a series deadline cont = .blocked a' ∧
+      a'.2 = a.2 ++ [.tx f.src bytes] ∧ a'.1.solBuf = a.1.solBuf :=
+  @Dnp3.Proofs.C05.resend_is_earlier_fragment_partial a f ctrl objects raw last hs r series deadline cont a00 dst0 hp hq hm hl hseq hfrag hu hobj hresp hbuf
 
 end Dnp3.Props.C05
